@@ -164,6 +164,7 @@ class Engine:
         self.cb_raise = False
         self.cb_set_armed = False
         self.cb_set_calls = []
+        self.cb_hook = None       # called inside the event callback (e.g. another gateway of the process doing its work)
         self.pub_raise = False
         self.sub_raise = False
         self.pump_exc = None
@@ -213,6 +214,8 @@ class Engine:
              (msg.node_id, msg.child_id, msg.type, msg.ack, msg.sub_type, msg.payload),
              projection(self.gw.sensors))
         )
+        if self.cb_hook is not None:
+            self.cb_hook(msg)
         if self.cb_set_armed and msg.type == 1:
             # one-shot: the controller reacts to this report from inside the callback with a command for the same child
             # and value type (a set-point being enforced, a manual change being undone)
